@@ -328,6 +328,12 @@ def _subview(m: BufferMachine, op, vals, core):
     vals[op.result] = View(src.buf, off, sizes, nstr)
 
 
+@handler(memref.MemorySpaceCastOp, snax.LayoutCast)
+def _cast_alias(m, op, vals, core):
+    # a cast that is still there names the same memory (realize-memref-casts leaves dead casts behind for DCE)
+    vals[op.results[0]] = m.get(vals, op.operands[0])
+
+
 @handler(memref.DimOp)
 def _dim(m, op, vals, core):
     v: View = m.get(vals, op.source)
